@@ -1059,6 +1059,9 @@ def run_gcd(job):
             x, y = secint(a), secint(b)
             if job.get('shared'):
                 x, y = mpc.input([secint(a), secint(b)], senders=0)
+            if job.get('only_inverse'):
+                out.append([int(v) for v in await mpc.output([mpc.inverse(x, y)])])
+                continue
             r = [mpc.gcd(x, y)] + list(mpc.gcdext(x, y))
             if O_fits(math.lcm(a, b), l):
                 r.append(mpc.lcm(x, y))
@@ -1260,6 +1263,11 @@ def gcd_check(job, results):
     """oracle for one gcd job: -> list of (message, pair, observed)"""
     bad = []
     l = job['l']
+    if job.get('only_inverse'):
+        for (a, b), r in zip(job['pairs'], results):
+            if r[0] != pow(a, -1, b):
+                bad.append((f'inverse({a},{b}) = {r[0]}, expected {pow(a, -1, b)}', (a, b), r))
+        return bad
     for (a, b), r in zip(job['pairs'], results):
         g = math.gcd(a, b)
         pos = 4
@@ -1280,6 +1288,11 @@ def gcd_check(job, results):
 def gcd_lines(job, results):
     l = job['l']
     req, impl = [], []
+    if job.get('only_inverse'):
+        for (a, b), r in zip(job['pairs'], results):
+            req.append(f'inverse {l} {a} {b}')
+            impl.append(str(r[0]))
+        return req, impl
     for (a, b), r in zip(job['pairs'], results):
         req += [f'gcd {l} {a} {b}', f'gcdext {l} {a} {b}']
         impl += [str(r[0]), f'{r[1]} {r[2]} {r[3]}']
@@ -1342,6 +1355,17 @@ def build_jobs(ctx, search=False):
     for l, prs in hard.items():
         if l <= 16 or ctx.thorough:
             jobs.append({'type': 'gcd', 'cfg': [1, 0, False], 'l': l, 'pairs': prs, 'seed': rng.randrange(1 << 30)})
+    # inverse alone on many random coprime pairs: the final range correction of the Bezout coefficient (u in (-2b, 2b))
+    # takes its rare branches (u < -b, u >= b) for about 1% of the pairs only
+    for i in range(ctx.scale(8, 40)):
+        l = [8, 16, 16, 12][i % 4]
+        pairs = []
+        while len(pairs) < 40:
+            a, b = rng.randrange(1, 1 << (l - 1)), rng.randrange(2, 1 << (l - 1))
+            if math.gcd(a, b) == 1:
+                pairs.append((a, b))
+        jobs.append({'type': 'gcd', 'cfg': [1, 0, bool(i % 2)] if i % 4 else [3, 1, False], 'l': l, 'pairs': pairs[:40 if i % 4 else 6],
+                     'seed': rng.randrange(1 << 30), 'only_inverse': True})
     for i in range(ctx.scale(8, 60)):
         l = [4, 8, 8, 16][i % 4] if not ctx.thorough else [4, 8, 16, 32][i % 4]
         pairs = []
